@@ -27,12 +27,20 @@ def index {α} (xs : List α) (i : Int) : Outcome α :=
 /-- `url.URL`: only its `String()` is used by the translated code. -/
 structure URL where
   str : String
-  deriving DecidableEq, Repr
+  deriving DecidableEq, Repr, Inhabited
 
 /-- `*http.Request`, handed through to the provider registry untouched. -/
 structure HTTPRequest where
   id : Nat
-  deriving DecidableEq, Repr
+  deriving DecidableEq, Repr, Inhabited
+
+/-- `*etree.Element`: opaque; what the untranslated functions (signature validation, unmarshalling, decryption, child
+    lookup) make of an element is given by the corresponding fields of the generated `Env`. -/
+structure Element where
+  id : Nat
+  deriving DecidableEq, Repr, Inhabited
+
+instance {α} : Inhabited (Outcome α) := ⟨.panic "uninitialised function value"⟩
 
 /-- `strconv.Itoa` -/
 def itoa (i : Int) : String := toString i
